@@ -5,11 +5,11 @@
 package main
 
 import (
-	"io"
-	"log"
 	"encoding/json"
 	"flag"
 	"fmt"
+	"io"
+	"log"
 	"os"
 	"strconv"
 )
